@@ -499,3 +499,75 @@ Proof.
   eapply steps_inv; [|exact Hs]. apply init_inv.
   rewrite Forall_forall in *. intros p Hin. apply ok_tpath; auto.
 Qed.
+
+(* ------------------------------------------------------------------ one critical section per written table *)
+Lemma add_new_In x l : In x (add_new x l).
+Proof.
+  induction l as [|y r IH]; cbn; [auto|]. destruct (String.eqb x y) eqn:E; [|right; exact IH].
+  apply String.eqb_eq in E. subst. left. reflexivity.
+Qed.
+Lemma add_new_keeps x y l : In x l -> In x (add_new y l).
+Proof.
+  induction l as [|z r IH]; cbn; [auto|]. intros [<-|H]; destruct (String.eqb y z); cbn; auto.
+Qed.
+Lemma existsb_eqb_In t l : existsb (String.eqb t) l = true <-> In t l.
+Proof.
+  rewrite existsb_exists. split.
+  - intros [x [Hx E]]. apply String.eqb_eq in E. now subst.
+  - intros H. exists t. split; [exact H|apply String.eqb_refl].
+Qed.
+
+(* an access to a table that is already closed is reported, whatever comes first *)
+Lemma split_scan_closed G t a : forall l r opened closed,
+  In t closed -> split_scan G (l ++ Acc t a :: r) opened closed <> None.
+Proof.
+  induction l as [|e l IH]; intros r opened closed Hc; cbn [app split_scan].
+  - apply existsb_eqb_In in Hc. rewrite Hc. discriminate.
+  - destruct e as [m md|m|t0 a0].
+    + apply IH. exact Hc.
+    + apply IH. apply in_or_app. right. exact Hc.
+    + destruct (existsb (String.eqb t0) closed); [discriminate|]. apply IH. exact Hc.
+Qed.
+
+(* a table that is open when its guard is released and accessed afterwards is reported *)
+Lemma split_scan_opened G t m a : alookup t G = Some m -> forall l l3 r opened closed,
+  In t opened -> split_scan G (l ++ Rel m :: l3 ++ Acc t a :: r) opened closed <> None.
+Proof.
+  intros Hg. induction l as [|e l IH]; intros l3 r opened closed Ho; cbn [app split_scan].
+  - apply split_scan_closed. apply in_or_app. left. apply filter_In. split; [exact Ho|].
+    rewrite Hg. apply String.eqb_refl.
+  - destruct e as [m0 md|m0|t0 a0].
+    + apply IH. exact Ho.
+    + destruct (String.eqb m m0) eqn:E.
+      * apply String.eqb_eq in E. subst m0.
+        replace (l ++ Rel m :: l3 ++ Acc t a :: r)%list with ((l ++ Rel m :: l3) ++ Acc t a :: r)%list
+          by (rewrite <- app_assoc; reflexivity).
+        apply split_scan_closed. apply in_or_app. left. apply filter_In. split; [exact Ho|].
+        rewrite Hg. apply String.eqb_refl.
+      * apply IH. apply filter_In. split; [exact Ho|].
+        apply Bool.negb_true_iff. apply Bool.not_true_is_false. intros H. apply existsb_eqb_In in H.
+        apply filter_In in H as [_ H]. rewrite Hg in H. rewrite H in E. discriminate.
+    + destruct (existsb (String.eqb t0) closed); [discriminate|]. apply IH. now apply add_new_keeps.
+Qed.
+
+(* the scan accepts only sequences in which no table is accessed, then has its guard released, then is accessed again *)
+Theorem split_scan_sound G t m a a' l1 l2 l3 l4 :
+  alookup t G = Some m ->
+  split_scan G (l1 ++ Acc t a :: l2 ++ Rel m :: l3 ++ Acc t a' :: l4) [] [] <> None.
+Proof.
+  intros Hg. generalize (@nil string) at 1 as opened. generalize (@nil string) as closed.
+  induction l1 as [|e l IH]; intros closed opened; cbn [app split_scan].
+  - destruct (existsb (String.eqb t) closed); [discriminate|].
+    apply (split_scan_opened G t m a' Hg). apply add_new_In.
+  - destruct e as [m0 md|m0|t0 a0]; try apply IH.
+    destruct (existsb (String.eqb t0) closed); [discriminate|]. apply IH.
+Qed.
+
+(* non-vacuity: a test under the read lock followed by a set under the write lock is reported, the same accesses inside
+   one critical section are not *)
+Example split_section_detects :
+  split_section [Meth "Valid" [SAcq "mu" MR; SItems [IAcc "T" MR]];
+                 Meth "Set" [SItems [ICall "Valid"]; SRet; SAcq "mu" MW; SItems [IAcc "T" MW]]] "Set"
+  = Some "split-critical-section:Set:T"%string /\
+  split_section [Meth "Set" [SAcq "mu" MW; SItems [IAcc "T" MR]; SRet; SItems [IAcc "T" MW]]] "Set" = None.
+Proof. split; vm_compute; reflexivity. Qed.
